@@ -198,6 +198,9 @@ func runACME(k *Case) result {
 	d := func(t string) int { return after[t] - before[t] }
 	nrec := e.recorded(hs)
 	fc := failClosed(cl, got, ev, ids, len(hs), nrec, 1, 0, "na", false)
+	if cl == "ok" && standingDenial(k) {
+		fc = "BROKEN"
+	}
 	if cl == "ok" && (d("acme_certs") == 0 || got != "cert") {
 		fc = "BROKEN"
 	}
